@@ -361,18 +361,28 @@ ScaleFailing(r) ==
 (* constructor's; on a SHARED object also one that a call begun before its return made current (the       *)
 (* histories replayed never change the count of a shared object, so this is the constructor's again).     *)
 (* shared = FALSE: module-level function, or one object per thread (all built with ctor).                 *)
+(* The implementation may make any group of its steps atomic (a lock): an interleaving it refuses is      *)
+(* simply not one of its behaviours, and only the behaviours it does show are judged.  A history is the   *)
+(* schedule REALISED: [op |-> "blocked", t] records that the open call of thread t could not go on while  *)
+(* the open call of another thread stood still (that call is then let run to its end first; its finish    *)
+(* appears where it happened) - allowed whenever both calls are open, it changes nothing.                 *)
+(* [op |-> "deadlock", t]: the call of thread t did not return although every other call was let run to   *)
+(* its end - never allowed (every call returns the sequential result, so it returns).                     *)
 ThrIdle == 0 - 1
 ThrNew(ctor, shared) == [ctor |-> ctor, shared |-> shared, args |-> {}, open |-> [t \in 1..4 |-> ThrIdle]]
 ThrAllowed(s, a) == IF a # QNone THEN {a} ELSE ({s.ctor} \cup s.args) \ {QNone}
 ThrSucc(s, ev) ==
-    IF ev.op = "start" THEN (IF s.open[ev.t] # ThrIdle THEN {}
+    IF ev.op = "deadlock" THEN {}
+    ELSE IF ev.op = "blocked" THEN (IF s.open[ev.t] # ThrIdle /\ (\E u \in DOMAIN s.open : u # ev.t /\ s.open[u] # ThrIdle) THEN {s} ELSE {})
+    ELSE IF ev.op = "start" THEN (IF s.open[ev.t] # ThrIdle THEN {}
                              ELSE {[s EXCEPT !.open[ev.t] = ev.arg, !.args = IF s.shared THEN @ \cup ({ev.arg} \ {QNone}) ELSE @]})
     ELSE LET a == s.open[ev.t] IN
          IF a = ThrIdle THEN {}
          ELSE IF ThrAllowed(s, a) = {} \/ (ev.err = "none" /\ ThrAllowed(s, a) \cap VRange(ev.ok) # {})
               THEN {[s EXCEPT !.open[ev.t] = ThrIdle]} ELSE {}
 ThrClause(s, ev) ==
-    IF ev.op = "start" \/ s.open[ev.t] = ThrIdle THEN "malformed_trace"
+    IF ev.op = "deadlock" THEN "deadlock"
+    ELSE IF ev.op = "start" \/ ev.op = "blocked" \/ s.open[ev.t] = ThrIdle THEN "malformed_trace"
     ELSE IF ev.err # "none" THEN "unexpected_error" ELSE "not_the_sequential_result"
 
 (* implementation-shaped model: m = [npts, rulefor] is the state of an object several calls share; a call  *)
@@ -381,9 +391,11 @@ ThrClause(s, ev) ==
 (*              thread)                                                                                   *)
 (*   "snap"     one object behind all calls, setup() hands the rule of the call back in one piece         *)
 (*   "late"     one object behind all calls, the rule is read from it again after setup() returned        *)
+(*   "locked"   as "late", but configure and use of a call are one atomic group (a lock held from setup   *)
+(*              to the last read): the model refuses to start a call while another one is configured      *)
 ThrMechStart(m, arg, variant) == IF variant = "private" THEN m ELSE MechSetup(m, arg, "pinned")
 ThrMechTaken(m, arg, variant) == IF variant = "private" THEN arg ELSE MechSetup(m, arg, "pinned").rulefor   \* rule in hand after configure
-ThrMechUsed(m, taken, variant) == IF variant = "late" THEN m.rulefor ELSE taken
+ThrMechUsed(m, taken, variant) == IF variant \in {"late", "locked"} THEN m.rulefor ELSE taken
 
 \* tabulated data: d = [n, err, finite, val : BOOLEAN (result = sum W_i * QInterp(table, x_i), to
 \* rounding), tab : rational table, exact : rational|QOff (the result projected onto the exact
